@@ -976,3 +976,20 @@ Print Assumptions via_link_undeclared_silent.
 Print Assumptions via_link_fail_closed.
 Print Assumptions m2s_direct_exact.
 Print Assumptions nid_parse_full.
+
+(* ---------- start-up negotiation of the size limits ---------- *)
+Theorem adjust_limit_bounds : forall configured advertised,
+  (adjust_limit configured advertised <= configured)%N /\ (adjust_limit configured advertised <= advertised)%N /\
+  (adjust_limit configured advertised = configured \/ adjust_limit configured advertised = advertised).
+Proof.
+  intros c a. unfold adjust_limit. repeat split; try apply N.le_min_r; try apply N.le_min_l.
+  destruct (N.min_dec a c) as [E|E]; rewrite E; [right|left]; reflexivity.
+Qed.
+
+(* a more generous modulator never raises the server's own limit; a stricter one lowers it to exactly its own *)
+Theorem adjust_limit_cases : forall configured advertised,
+  ((configured <= advertised)%N -> adjust_limit configured advertised = configured) /\
+  ((advertised <= configured)%N -> adjust_limit configured advertised = advertised).
+Proof. intros c a. unfold adjust_limit. split; intros H; [apply N.min_r | apply N.min_l]; exact H. Qed.
+
+Print Assumptions adjust_limit_bounds.
